@@ -257,12 +257,12 @@ func buildPools() map[byte][]leaf {
 		// formatter that is not the print tag's may switch to another spelling. Slots 6-11 are the comma
 		// twins of slots 0-5 (the values come back out of a call, a list or a hash literal).
 		'g': {g999, gbig, g1e15, gog, g252, ggs1,
-			elemAt(1, ia, g999),               // [a, 999999999999999][1]
-			call("pick", ilit(1), ia, gbig),   // pick(1, a, big)
-			hashAt("k", "k", g1e15, "j", i2),  // {'k': 1000000000000000, 'j': 2}['k']
-			call("pick", ilit(0), gog, i2),    // pick(0, o.g, 2)
-			call("max", i2, g252),             // max(2, 4503599627370497)
-			call("min", ggs1, ia),             // min(gs[1], a) = -9007199254740991
+			elemAt(1, ia, g999),              // [a, 999999999999999][1]
+			call("pick", ilit(1), ia, gbig),  // pick(1, a, big)
+			hashAt("k", "k", g1e15, "j", i2), // {'k': 1000000000000000, 'j': 2}['k']
+			call("pick", ilit(0), gog, i2),   // pick(0, o.g, 2)
+			call("max", i2, g252),            // max(2, 4503599627370497)
+			call("min", ggs1, ia),            // min(gs[1], a) = -9007199254740991
 		},
 		// medium integers (static type 'm', 10^7 .. 94906265): only ever factors of a product M * M or
 		// the base of M ^ 2, so that a large integer arises as an intermediate result; every product of
